@@ -1,5 +1,282 @@
-import RSocketModel.Engine.Step
-/-! # C09 — placeholder until the proofs land -/
+import RSocketModel.Props.C07
+import RSocketModel.Props.C06
+import RSocketModel.Props.C10
+import RSocketModel.Props.C12
+/-!
+# C09 — Cancellation stops the stream at both ends
+
+Engine model: the canceller's side (`Subscription.cancel()` on a stream / channel requester or
+channel responder, cancelling the request-response awaitable) and the peer's side (CANCEL
+received by a responder). Credit model (C06): what `cancel()` does to a library stream source.
+-/
 namespace RSocketModel.Engine
-theorem c09_placeholder : (init 1).closed = false := rfl
+
+/-! ### exactly one CANCEL per cancellation -/
+
+/-- cancelling a subscription emits exactly one frame: CANCEL on that stream -/
+theorem c09_subscription_cancel_sends_one_cancel (st : State) (hc : st.closed = false) (oid : Nat) (s : Stream)
+    (ho : st.obj oid = some s) (hk : s.kind = .stReq ∨ s.kind = .chReq ∨ s.kind = .chResp) :
+    (step st (.subCancel oid)).2 = [.send (mkCancel s.sid)] := by
+  rcases hk with hk | hk | hk <;> simp [step, apiStep, ho, hk, State.emit, hc]
+
+theorem cbRRReq_cancelled (st : State) (hc : st.closed = false) (oid : Nat) (s1 : Stream) (h1 : st.obj oid = some s1)
+    (hk : s1.kind = .rrReq) (hcb : s1.cb = true) (hf : s1.fut = .cancelled) (hrr : s1.responseReceived = false) :
+    step st (.cbRRReq oid) = ((st.setObj oid { s1 with cb := false }).finish s1.sid, [.send (mkCancel s1.sid)]) := by
+  simp [step, apiStep, h1, hk, hcb, hf, hrr, State.emit, hc]
+
+theorem cbRRReq_idle (st : State) (oid : Nat) (s1 : Stream) (h1 : st.obj oid = some s1) (hcb : s1.cb = false) :
+    step st (.cbRRReq oid) = (st, []) := by
+  simp [step, apiStep, h1, hcb, State.emit]
+
+/-- cancelling a pending request-response awaitable emits nothing by itself; its done-callback
+then emits exactly one CANCEL, and running the callback again emits nothing -/
+theorem c09_future_cancel_sends_one_cancel (st : State) (hc : st.closed = false) (oid : Nat) (s : Stream)
+    (ho : st.obj oid = some s) (hk : s.kind = .rrReq) (hf : s.fut = .pending) (hrr : s.responseReceived = false) :
+    let r1 := step st (.futCancel oid)
+    let r2 := step r1.1 (.cbRRReq oid)
+    let r3 := step r2.1 (.cbRRReq oid)
+    r1.2 = [] ∧ r2.2 = [.send (mkCancel s.sid)] ∧ r3.2 = [] := by
+  have h1 := obj_setObj_self st oid s { s with fut := .cancelled, cb := true } ho
+  have e1 : step st (.futCancel oid) = (st.setObj oid { s with fut := .cancelled, cb := true }, []) := by
+    simp [step, apiStep, ho, hk, hf, State.emit]
+  have e2 := cbRRReq_cancelled (st.setObj oid { s with fut := .cancelled, cb := true }) hc oid _ h1 hk rfl rfl hrr
+  have h2 := obj_setObj_self _ oid _ { ({ s with fut := .cancelled, cb := true } : Stream) with cb := false } h1
+  have e3 := cbRRReq_idle (((st.setObj oid { s with fut := .cancelled, cb := true }).setObj oid
+      { ({ s with fut := .cancelled, cb := true } : Stream) with cb := false }).finish s.sid) oid _ (by rw [finish_obj]; exact h2) rfl
+  simp only [e1, e2, e3, and_self]
+
+def Out.isCancelSend : Out → Bool
+  | .send g => g.ty == .cancel
+  | _ => false
+
+theorem frameReceived_no_cancel (st : State) (oid : Nat) (s : Stream) (f : Frame) :
+    ∀ x ∈ (frameReceived st oid s f).2, x.isCancelSend = false := by
+  unfold frameReceived
+  cases s.kind <;> simp only <;> cases f.ty <;> simp only <;> (repeat' split) <;> simp [mkError, Out.isCancelSend]
+
+theorem handleByType_no_cancel (st : State) (f : Frame) (b : Behaviour) :
+    ∀ x ∈ (handleByType st f b).2, x.isCancelSend = false := by
+  unfold handleByType
+  cases hty : f.ty <;> simp only
+  case requestResponse => split <;> (try cases b) <;> (try simp only) <;> (repeat' split) <;> simp [mkError, Out.isCancelSend]
+  case requestStream => split <;> (try cases b) <;> (try simp only) <;> (repeat' split) <;> simp [mkError, Out.isCancelSend]
+  case requestFnf => split <;> (try cases b) <;> simp [mkError, Out.isCancelSend]
+  case requestChannel =>
+    split
+    · simp [mkError, Out.isCancelSend]
+    · cases b with
+      | channel hasPub hasSub =>
+        simp only
+        split
+        · simp [mkError, Out.isCancelSend]
+        · cases hasPub <;> cases hasSub <;> cases f.complete <;> simp [mkPayload, Out.isCancelSend]
+      | _ => simp [mkError, Out.isCancelSend]
+  case setup => (repeat' split) <;> simp [mkError, Out.isCancelSend]
+  case metadataPush => cases b <;> simp [mkError, Out.isCancelSend]
+  case keepalive => split <;> simp [Out.isCancelSend, hty]
+  all_goals simp [mkError, Out.isCancelSend]
+
+theorem stopAll_targets (l : List (Nat × Nat)) : ∀ st : State, ∀ x ∈ (stopAll st l).2, x.target ≠ none := by
+  induction l with
+  | nil => intro st x hx; simp [stopAll] at hx
+  | cons p rest ih =>
+    intro st x hx
+    simp only [stopAll, List.mem_append, stopOne_outs] at hx
+    rcases hx with hx | hx
+    · rw [stopOuts_targets _ _ x hx]; simp
+    · exact ih _ x hx
+
+theorem apiStep_no_cancel (st : State) (ev : Ev) (h1 : ∀ oid, ev ≠ .subCancel oid) (h2 : ∀ oid, ev ≠ .cbRRReq oid) :
+    ∀ x ∈ (apiStep st ev).2, x.isCancelSend = false := by
+  cases ev <;> simp only [apiStep]
+  case subCancel oid => exact absurd rfl (h1 oid)
+  case cbRRReq oid => exact absurd rfl (h2 oid)
+  case requestResponse data => rcases allocate st with ⟨o, st1⟩; cases o <;> simp [Out.isCancelSend]
+  case fireAndForget data => rcases allocate st with ⟨o, st1⟩; cases o <;> simp [Out.isCancelSend]
+  case requestStream data n sub =>
+    rcases allocate st with ⟨o, st1⟩
+    cases o <;> simp only <;> (repeat' split) <;> simp [Out.isCancelSend]
+  case requestChannel data n hp sub =>
+    rcases allocate st with ⟨o, st1⟩
+    cases o <;> simp only <;> (repeat' split) <;> simp [Out.isCancelSend]
+    all_goals (cases hp <;> simp [Out.isCancelSend])
+  all_goals ((repeat' split) <;> simp [Out.isCancelSend, mkRequestN, mkPayload, mkError])
+
+/-- CANCEL frames come from cancellations only: whatever else happens (frames received, signals
+from the application, callbacks of other futures, connection loss), no CANCEL is emitted -/
+theorem c09_cancel_only_from_cancellation (st : State) (ev : Ev) (g : Frame) (hg : Out.send g ∈ (step st ev).2)
+    (hty : g.ty = .cancel) : (∃ oid, ev = .subCancel oid) ∨ (∃ oid, ev = .cbRRReq oid) := by
+  have hg := mem_emit _ _ _ hg
+  have hcs : (Out.send g).isCancelSend = true := by simp [Out.isCancelSend, hty]
+  cases ev with
+  | recv f b =>
+    exfalso
+    simp only at hg
+    unfold recvStep at hg
+    split at hg
+    · simp at hg
+    · generalize (if isFragmentable f.ty = true then cacheAppend st f else (st, some (Except.ok f))) = r at hg
+      rcases r with ⟨st', c⟩
+      simp only at hg
+      split at hg
+      · simp at hg
+      · simp [mkError] at hg; rw [hg] at hty; cases hty
+      · split at hg
+        · have := handleByType_no_cancel st' _ b _ hg; rw [hcs] at this; cases this
+        · split at hg
+          · simp at hg
+          · split at hg
+            · simp at hg
+            · have := frameReceived_no_cancel st' _ _ _ _ hg; rw [hcs] at this; cases this
+  | lost =>
+    exfalso
+    simp only [lostStep] at hg
+    split at hg
+    · simp at hg
+    · simp only [List.mem_append, List.mem_singleton] at hg
+      rcases hg with hg | hg
+      · exact stopAll_targets st.table st _ hg rfl
+      · cases hg
+  | stopStreams => exact absurd rfl (stopAll_targets st.table st _ hg)
+  | subCancel oid => exact Or.inl ⟨oid, rfl⟩
+  | cbRRReq oid => exact Or.inr ⟨oid, rfl⟩
+  | _ =>
+    exfalso
+    have := apiStep_no_cancel st _ (by intro o e; cases e) (by intro o e; cases e) _ hg
+    rw [hcs] at this; cases this
+
+/-! ### nothing further is delivered to the canceller -/
+
+/-- a silent object receives no signal in any continuation of the run -/
+theorem silent_run (evs : List Ev) : ∀ (st : State), WF st → ∀ oid, Silent st oid →
+    ∀ y ∈ (run st evs).2.flatten, y.target = some oid → y.isSignal = false := by
+  induction evs with
+  | nil => intro st _ oid _ y hy; simp [run] at hy
+  | cons ev es ih =>
+    intro st hw oid hs y hy ht
+    simp only [run, List.flatten_cons, List.mem_append] at hy
+    rcases hy with hy | hy
+    · exact silent_no_signal st hw oid hs ev y hy ht
+    · exact ih _ (wf_step st hw ev) oid (silent_persists st _ (ext_step st ev) oid hs) y hy ht
+
+/-- **after `Subscription.cancel()` the canceller's subscriber receives nothing further** — not
+from frames still in flight, not from a later connection loss, not from anything else -/
+theorem c09_nothing_after_subscription_cancel (st : State) (h : WF st) (oid : Nat) (s : Stream) (ho : st.obj oid = some s)
+    (hk : s.kind = .stReq ∨ s.kind = .chReq ∨ s.kind = .chResp) (evs : List Ev) :
+    ∀ y ∈ (run (step st (.subCancel oid)).1 evs).2.flatten, y.target = some oid → y.isSignal = false := by
+  refine silent_run evs _ (wf_step st h _) oid ?_
+  rcases hk with hk | hk | hk <;> simp only [step, apiStep, ho, hk]
+  · exact silent_finish_st st h oid s ho hk
+  · exact silent_markChannel st oid s ho (Or.inl hk) false
+  · exact silent_markChannel st oid s ho (Or.inr hk) false
+
+/-- … and the cancelled request-response awaitable is never given a result or an exception -/
+theorem c09_nothing_after_future_cancel (st : State) (h : WF st) (oid : Nat) (s : Stream) (ho : st.obj oid = some s)
+    (hk : s.kind = .rrReq) (hf : s.fut = .pending) (evs : List Ev) :
+    ∀ y ∈ (run (step st (.futCancel oid)).1 evs).2.flatten, y.target = some oid → y.isSignal = false :=
+  c07_cancelled_future_not_resolved st h oid s ho hk hf evs
+
+/-! ### the peer: CANCEL stops the producer -/
+
+/-- a CANCEL received for a registered responder cancels what was producing the response —
+the publisher's subscription (stream, channel with a publisher) or the handler's pending future
+(request-response) — emits nothing on the wire, and unregisters the stream (for a channel: closes
+the sending direction) -/
+theorem c09_peer_cancel_stops_producer (st : State) (hw : WF st) (hc : st.closed = false) (sid oid : Nat) (s : Stream)
+    (h0 : sid ≠ 0) (hreg : st.oidOf sid = some oid) (ho : st.obj oid = some s) (b : Behaviour) :
+    let r := step st (.recv { ty := .cancel, sid := sid } b)
+    (s.kind = .stResp → r.2 = [.pubCancel oid] ∧ r.1.isActive sid = false) ∧
+    (s.kind = .rrResp → s.fut = .pending → r.2 = [.hfCancel oid] ∧ r.1.isActive sid = false) ∧
+    ((s.kind = .chResp ∨ s.kind = .chReq) → s.hasPub = true →
+      r.2 = [.pubCancel oid] ∧ ∃ s', r.1.obj oid = some s' ∧ s'.sentComplete = true) := by
+  obtain ⟨s', hs', hsid⟩ := oidOf_obj st hw sid oid hreg
+  rw [ho] at hs'; cases hs'
+  refine ⟨?_, ?_, ?_⟩
+  · intro hk
+    simp [step, recvStep, hc, isFragmentable, h0, isInitiate, hreg, ho, frameReceived, hk, State.emit, hsid, isActive_finish]
+  · intro hk hf
+    simp [step, recvStep, hc, isFragmentable, h0, isInitiate, hreg, ho, frameReceived, hk, hf, State.emit, hsid, isActive_finish,
+      isActive_setObj]
+  · intro hk hp
+    rcases hk with hk | hk <;>
+      simp [step, recvStep, hc, isFragmentable, h0, isInitiate, hreg, ho, frameReceived, hk, hp, State.emit,
+        markChannel_obj st oid s ho]
+
+/-- once unregistered, further frames for that stream (a late REQUEST_N, say) reach nobody -/
+theorem c09_late_frames_dropped (st : State) (hc : st.closed = false) (sid : Nat) (h0 : sid ≠ 0)
+    (hna : st.oidOf sid = none) (n : Nat) (b : Behaviour) :
+    step st (.recv { ty := .requestN, sid := sid, n := n } b) = (st, [.drop sid]) := by
+  simp [step, recvStep, hc, isFragmentable, h0, isInitiate, hna, State.emit]
+
+/-! ### cancelling one stream does not disturb any other -/
+
+/-- a local cancellation changes no other handler object, addresses no other application object,
+and queues frames on its own stream only -/
+theorem c09_cancel_is_local (st : State) (oid : Nat) (s : Stream) (ho : st.obj oid = some s) :
+    (∀ j, j ≠ oid → (step st (.subCancel oid)).1.obj j = st.obj j) ∧
+    (∀ j, j ≠ s.sid → (step st (.subCancel oid)).1.oidOf j = st.oidOf j) ∧
+    (∀ x ∈ (step st (.subCancel oid)).2, x.target = none ∨ x.target = some oid) ∧
+    (∀ g, Out.send g ∈ (step st (.subCancel oid)).2 → g.sid = s.sid) := by
+  refine ⟨fun j hj => apiStep_obj_ne st (.subCancel oid) j hj, ?_, ?_, ?_⟩
+  · intro j hj
+    simp only [step, apiStep, ho]
+    split <;> simp [oidOf_finish_ne _ _ _ hj, oidOf_markChannel_ne _ _ _ _ _ _ hj]
+  · intro x hx
+    exact apiStep_targets st (.subCancel oid) x (mem_emit _ _ _ hx)
+  · intro g hg
+    have hg := mem_emit _ _ _ hg
+    simp only [apiStep, ho] at hg
+    split at hg <;> simp [mkCancel] at hg <;> rw [hg]
+
+/-- the peer's side of the same: processing the CANCEL leaves every other stream's registration
+untouched (instance of C12's locality) -/
+theorem c09_peer_cancel_is_local (st : State) (h : WF st) (sid : Nat) (b : Behaviour) (j : Nat) (hj : j ≠ sid) :
+    (step st (.recv { ty := .cancel, sid := sid } b)).1.oidOf j = st.oidOf j :=
+  c12_other_streams_untouched st h { ty := .cancel, sid := sid } b j hj
+
+end RSocketModel.Engine
+
+namespace RSocketModel.Credit
+
+variable {α : Type}
+
+/-- **production stops**: after `cancel()` a library stream source delivers nothing more, takes
+nothing more from the underlying generator and accepts no further credit, whatever is scheduled
+afterwards -/
+theorem c09_source_cancel_stops_production (s : State α) (evs : List Ev) :
+    (run (step s .cancel) evs).emitted = s.emitted ∧ (run (step s .cancel) evs).src = s.src ∧
+    (run (step s .cancel) evs).outQ = s.outQ ∧ (run (step s .cancel) evs).terminal = s.terminal := by
+  have key : ∀ (evs : List Ev) (s' : State α), s'.cancelled = true → run s' evs = s' := by
+    intro evs
+    induction evs with
+    | nil => intro s' _; rfl
+    | cons e es ih =>
+      intro s' hc
+      have hstep : step s' e = s' := by
+        cases e <;> simp [step, hc]
+        cases s'; simp_all
+      simp only [run, List.foldl_cons, hstep]
+      exact ih s' hc
+  rw [key evs (step s .cancel) rfl]
+  exact ⟨rfl, rfl, rfl, rfl⟩
+
+end RSocketModel.Credit
+
+namespace RSocketModel.Engine
+
+/-! ### non-vacuity -/
+
+/-- a client with a subscribed stream cancels it: one CANCEL, and the in-flight element and the
+later connection loss deliver nothing -/
+example : (run (init 1) [.requestStream [1] 5 true, .subCancel 0,
+    .recv { ty := .payload, sid := 1, data := [7], next := true } .ok, .lost]).2 =
+    [[.created 0 1, .onSubscribe 0, .send { ty := .requestStream, sid := 1, n := 5, data := [1] }],
+     [.send (mkCancel 1)], [.drop 1], [.onClose]] := by decide +kernel
+
+/-- a server whose publisher is producing receives CANCEL -/
+example : (run (init 2) [.recv { ty := .requestStream, sid := 1, n := 3, data := [1] } .publisher,
+    .recv { ty := .cancel, sid := 1 } .ok, .recv { ty := .requestN, sid := 1, n := 5 } .ok]).2 =
+    [[.handlerCall .requestStream [1], .created 0 1, .pubSubscribe 0, .pubRequest 0 3], [.pubCancel 0], [.drop 1]] := by
+  decide +kernel
+
 end RSocketModel.Engine
